@@ -30,6 +30,16 @@ Theorem C12_unary : forall c,
      (exists p, nth_error bp4_buf 0 = Some p /\ run_bool p (firstn 2 (code_bits c)) = firstn 2 (code_bits (spec_buf c)))).
 Proof. exact unary_spec. Qed.
 
+(* IN PLACE (the output array is the operand, as LogicSim calls bp?v_not(c[o], c[o]) for every inverting gate): the unary bit-parallel
+   operators, traced with one symbolic array for both arguments, still are the algebra's NOT / BUF *)
+Theorem C12_unary_inplace : forall c,
+  (exists p, nth_error bp8_not_inplace 0 = Some p /\ run_bool p (code_bits c) = code_bits (spec_not c)) /\
+  (exists p, nth_error bp8_buf_inplace 0 = Some p /\ run_bool p (code_bits c) = code_bits (spec_buf c)) /\
+  (is4 c = true ->
+     (exists p, nth_error bp4_not_inplace 0 = Some p /\ run_bool p (firstn 2 (code_bits c)) = firstn 2 (code_bits (spec_not c))) /\
+     (exists p, nth_error bp4_buf_inplace 0 = Some p /\ run_bool p (firstn 2 (code_bits c)) = firstn 2 (code_bits (spec_buf c)))).
+Proof. exact unary_inplace_spec. Qed.
+
 Theorem C12_mv_bp_agree : forall o k cs, 1 <= k <= 4 -> length cs = k ->
   exists pm pb, nth_error (mv_of o) (k - 1) = Some pm /\ nth_error (bp8_of o) (k - 1) = Some pb /\
                 run_bool pm (encode_ins 3 cs) = run_bool pb (encode_ins 3 cs) ++ zeros5.
